@@ -758,7 +758,7 @@ def run(rep, tier="quick", srcdir=None, only=None):
 
 
 MANIFEST = {
-    "technique": "constant-table agreement on IR initialisers, bounded-subscript / bounded-window / reservation-vs-store rules (IR value flow + per-path byte counting), descriptor symmetry",
+    "technique": "constant-table agreement on IR initialisers, bounded-subscript / bounded-window / reservation-vs-store rules (IR value flow + per-path byte counting), descriptor symmetry + loop-carried-state rule for the per-region decoder blocks (fragmentation independence)",
     "level": "memory safety and table agreement only: inverse tables and matching sizes, bounded table subscripts, reads within mapped windows, stores within "
              "reservations on every path between two reservations, no unguarded size subtraction, symmetric format masks. The round-trip identity over all byte "
              "strings and fragmentations is a functional statement and is NOT decided",
